@@ -45,6 +45,7 @@ type syncState struct {
 	rlocks  int
 	counter int
 	vc      VC
+	rvc     VC // releases by readers (RUnlock): ordered before the next writer only, never before other readers
 	onceRan bool
 }
 
@@ -324,6 +325,9 @@ func (it *Interp) mutexLock(p Ptr) {
 	it.blockUntil(func() bool { return !s.locked && s.rlocks == 0 })
 	s.locked = true
 	it.acquire(s)
+	if s.rvc != nil {
+		it.cur.vc.join(s.rvc)
+	}
 }
 func (it *Interp) mutexUnlock(p Ptr) {
 	s := it.syncObj(p)
@@ -342,7 +346,12 @@ func (it *Interp) rlock(p Ptr) {
 }
 func (it *Interp) runlock(p Ptr) {
 	s := it.syncObj(p)
-	it.release(s)
+	// a reader's release is visible to the next writer only: two read-locked sections are not ordered by the lock
+	if s.rvc == nil {
+		s.rvc = VC{}
+	}
+	s.rvc.join(it.cur.vc)
+	it.cur.vc[it.cur.id]++
 	s.rlocks--
 }
 func (it *Interp) wgAdd(p Ptr, n int) {
